@@ -317,6 +317,10 @@ def engine_family(ctx, mode, checks, n_quick=400, n_thorough=16000, golden=True)
 @prop("C01")
 def c01(ctx):
     engine_family(ctx, "c01", {"status", "where"})
+    # an instance needs one substitution for all occurrences of a metavariable: repeated metavariables too
+    rule = ctx.rule
+    engine_family(ctx, "c02", {"status", "where"}, n_quick=250, n_thorough=8000, golden=False)
+    ctx.rule = rule + " A second batch uses generator mode c02 (repeated metavariables with identical, almost identical and different fillers)."
 
 @prop("C02")
 def c02(ctx):
@@ -394,6 +398,13 @@ def make_scenarios(ctx, cases, n, rng, kinds):
         if "odd" in kinds and rng.random() < 0.8:
             files[rng.choice(["odd.go", "a/odd.go"])] = rng.choice(ODD_UNMATCHED)
             note.append("odd")
+        if "imports-only" in kinds:
+            # files that satisfy the import guards of the patch but contain none of its code
+            specs = re.findall(r'^[ -]\s*import\s+(?:\(\s*)?((?:[\w.]+\s+)?"[^"]+")', "\n".join(base["patches"]), re.M)
+            for si, spec in enumerate(specs[:2]):
+                spec = re.sub(r"^(impname|nm)\s+", rng.choice(["", "alias "]), spec)
+                files[f"imp{si}/only.go"] = f"package imponly\n\nimport {spec}\n\nfunc   unrelated( ) {{ zzzUnrelated( 1 ) }}\n"
+                note.append("imports-only")
         if "generated" in kinds and rng.random() < 0.7:
             name, hdr, isgen = rng.choice(GENERATED_HEADERS)
             files["gen/" + name.replace("-", "_") + ".go"] = hdr + base["src"]
@@ -577,23 +588,58 @@ def cli_family(ctx, kinds, optsets, categories, n_quick, n_thorough, gen_mode="m
                     "problems": found,
                     "reproduce": "create files and p<i>.patch in a directory, run: gopatch -p p0.patch [...] <flags> ."})
 
+def model_decisions(ctx, scen):
+    """Lean model's verdict for every (scenario, file): True when some change applies"""
+    d = ctx.scratch("dec")
+    pth = os.path.join(d, "in.jsonl")
+    with open(pth, "w") as f:
+        for sc in scen:
+            for rel, src in sc.files.items():
+                if isinstance(src, bytes):
+                    src = src.decode("utf-8", "replace")
+                f.write(json.dumps({"id": sc.id + "|" + rel, "patches": sc.patches, "src": src}) + "\n")
+    out = {}
+    for inp, orig, impl, model, same in run_engine_batch(ctx, ["-inputs", pth], "dec"):
+        out[inp["id"]] = (model["status"], any(t.startswith("k") for t in model["trace"]))
+    return out
+
 @prop("C06")
 def c06(ctx):
+    decisions = {}
     def post(ctx, sc, opts, infos, pred, obs, work):
-        # the property itself, stated directly on the observation for unmatched files
+        # the property itself, stated directly on the observation, for the files in which the
+        # Lean model finds no instance of any change (independent of what the binary believes)
         out = []
         for i in infos:
-            if i["parses"] and i["content"] is not None and i["apply"][0] == "nomatch":
-                rel = i["provided"]
-                if obs["before"].get(rel) != obs["after"].get(rel):
-                    out.append(f"{rel}: unmatched file was touched on disk")
-                if "diff" in opts and ("--- " + rel) in obs["stdout"].decode("utf-8", "replace"):
-                    out.append(f"{rel}: unmatched file appears in the diff")
-                if any(l.startswith(rel + ":") for l in obs["stderr"].split("\n")):
-                    out.append(f"{rel}: description printed for an unmatched file")
+            rel = i["provided"]
+            status, applies = decisions.get(sc.id + "|" + rel, ("?", True))
+            unmatched = (status == "ok" and not applies) or (i["parses"] and i["content"] is not None and i["apply"][0] == "nomatch")
+            if not unmatched or not i["parses"] or i["content"] is None:
+                continue
+            if "sg" in opts and i.get("generated"):
+                continue
+            ctx.count("unmatched_files_checked")
+            if obs["before"].get(rel) != obs["after"].get(rel):
+                out.append(f"{rel}: no change applies to it but it was touched on disk")
+            so = obs["stdout"].decode("utf-8", "replace")
+            if "diff" in opts and ("--- " + rel + "\n") in so:
+                out.append(f"{rel}: no change applies to it but it appears in the diff")
+            if "print" in opts and i["content"].decode("utf-8", "replace") not in so:
+                out.append(f"{rel}: --print-only does not echo its original bytes")
+            if any(l.startswith(rel + ":") for l in obs["stderr"].split("\n")):
+                out.append(f"{rel}: description printed although no change applies")
+            if i["apply"][0] == "ok" and status == "ok" and not applies:
+                out.append(f"{rel}: gopatch treats the file as patched although no change of the patch applies to it")
         return out
-    cli_family(ctx, {"odd"}, [[], ["print"], ["diff"], ["print", "si"], ["sg"]],
-               {"unmatched", "stdout", "exit"}, 30, 600, post=post)
+    ctx.rule = CLI_RULE + (" For this property the decision 'no change applies' is taken from the Lean engine model on the dumped trees, "
+                           "so that it does not depend on the binary's own belief; files that satisfy a patch's import guards but contain "
+                           "none of its code are added to every scenario whose patch has an import clause.")
+    rng = random.Random(ctx.seed)
+    n = 40 if ctx.tier == "quick" else 800
+    cases = gen_cases(ctx, "c05", 150 if ctx.tier == "quick" else 1500, ctx.seed)
+    scen = make_scenarios(ctx, cases, n, rng, {"odd", "imports-only"})
+    decisions.update(model_decisions(ctx, scen))
+    run_scenarios(ctx, scen, [[], ["print"], ["diff"], ["print", "si"], ["sg"]], {"unmatched", "stdout", "exit"}, post)
 
 @prop("C12")
 def c12(ctx):
